@@ -21,7 +21,7 @@ ASSUMPTIONS = ["Redis and RabbitMQ are wire-level fakes (RabbitMQ rule R2: per-m
                "virtual time; bounded latency L = 10 s of virtual time after max(T, consumer start)",
                "early = more than 1 ms before T"]
 EVAL_COUNTER = "deliveries_judged"
-REQUIRED = ["deliveries_judged", "due_past", "due_subsecond", "due_seconds", "due_far", "visibility_probes", "multi_scenarios", "peek_scenarios", "peek_returns"]
+REQUIRED = ["deliveries_judged", "due_past", "due_subsecond", "due_seconds", "due_far", "visibility_probes", "multi_scenarios", "peek_scenarios", "peek_returns", "crowd_scenarios"]
 CASE_TIMEOUT = 120
 
 OFFSETS = [-5.0, -0.000001, 0.0004, 0.3, 0.9995, 1.0, 1.5, 5.0, 3600.0, 2592000.0]
@@ -56,6 +56,10 @@ def gen_cases(tier, seed):
                           "running_consumer": rnd.random() < 0.6, "latency": None if kind == "mem" else rnd.choice([None, 0.003])})
         for i in range({"quick": 4, "thorough": 24}[tier]):
             cases.append({"type": "vis", "kind": kind, "offset": rnd.choice([25.0, 60.0, 3600.0, 2592000.0]), "phase": rnd.choice(PHASES), "seed": rnd.randrange(10**6)})
+        # a due message of the consumer's topic behind k due messages of a topic nobody consumes (fetch windows, offsets)
+        if kind != "rabbit":  # (there a foreign message in front blocks by design: C11's finding)
+            for k in ([8, 9, 10, 11, 19, 20, 21, 29, 30] if tier == "thorough" else [9, 10, 19, 20]):
+                cases.append({"type": "crowd", "kind": kind, "k": k, "own": rnd.choice([1, 3]), "phase": rnd.choice(PHASES), "seed": rnd.randrange(10**6)})
         # a delayed message is looked at through the DELAYED category and given back (reject / finish), while a normal
         # consumer keeps listening: still never early, still delivered within the bound after T
         holds = ["short", "past_earlier", "past_T"]
@@ -248,6 +252,56 @@ async def multi(loop, case, out, stats, fps, samples):
         rig.close()
 
 
+async def crowd(loop, case, out, stats, fps):
+    from repid.data._parameters import DelayProperties
+    from repid.message import MessageCategory
+    from rv.rigs import Rig, key_of
+
+    kind = case["kind"]
+    rig = Rig(kind, loop, latency=None, seed=case["seed"])
+    try:
+        conn = rig.make_connection("p1")
+        await conn.connect()
+        mb = conn.message_broker
+        await mb.queue_declare("q")
+        loop.jump((case["phase"] - loop.time() % 1.0) % 1.0 + 1.0)
+        P = mb.PARAMETERS_CLASS
+        T = datetime.now() + timedelta(seconds=2.0)
+        # same due time for all: the broker's own order decides (score, then name): the foreign ones sort first
+        for i in range(case["k"]):
+            await mb.enqueue(key_of(conn, f"f{i:02d}", "a_foreign", "q"), "p", P(delay=DelayProperties(next_execution_time=T)))
+        own = [f"o{i}" for i in range(case["own"])]
+        for id_ in own:
+            await mb.enqueue(key_of(conn, id_, "t_own", "q"), "p", P(delay=DelayProperties(next_execution_time=T)))
+        cons = mb.get_consumer("q", ["t_own"], None, MessageCategory.NORMAL)
+        await cons.start()
+        got = {}
+        horizon = vt(T) + L_BOUND + 2
+        while len(got) < len(own) and loop.time() < horizon:
+            try:
+                key, _, _ = await asyncio.wait_for(cons.consume(), max(0.01, horizon - loop.time()))
+            except asyncio.TimeoutError:
+                break
+            got[key.id_] = loop.time()
+            await mb.ack(key)
+        await cons.finish()
+        stats["crowd_scenarios"] += 1
+        fps.add(f"{kind}/crowd/{case['k']}/{case['own']}/{case['phase']}")
+        for id_ in own:
+            stats["deliveries_judged"] += 1
+            if id_ not in got:
+                out.append(V("late", kind, "crowd", f"{id_} (topic of the consumer, due +2 s) behind {case['k']} due messages of another topic was not delivered within {L_BOUND + 2:.0f}s after T; state {rig.snapshot().get(id_)}"))
+            elif vt(T) - got[id_] > 0.001:
+                out.append(V("early", kind, "crowd", f"{id_} delivered {(vt(T) - got[id_]) * 1000:.3f} ms early"))
+        for id_ in got:
+            if id_ not in own:
+                out.append(V("visible_as_normal_before_due", kind, "crowd/foreign", f"{id_} has a topic the consumer did not ask for"))
+        await conn.disconnect()
+        stats["unknown_server_commands"] += rig.unknown_commands()
+    finally:
+        rig.close()
+
+
 async def peek(loop, case, out, stats, fps):
     from repid.data._parameters import DelayProperties, RetriesProperties
     from repid.message import MessageCategory
@@ -320,7 +374,7 @@ async def peek(loop, case, out, stats, fps):
                     out.append(V("late", kind, f"peek/{case['hold']}/{case['back']}", f"{id_} (due +{tT - t0:.3f}s, given back by the DELAYED consumer at +{t_back - t0:.3f}s) not delivered to the listening consumer by +{horizon - t0:.1f}s; state {rig.snapshot().get(id_)}"))
                 elif tT - got[id_] > 0.001:
                     out.append(V("early", kind, f"peek/{case['hold']}", f"{id_} delivered {(tT - got[id_]) * 1000:.3f} ms early"))
-                elif got[id_] - max(tT, t_back if id_ == "m1" else tT) > L_BOUND:
+                elif got[id_] - max(tT, t_back) > L_BOUND:  # (the DELAYED consumer may have re-taken the earlier one into its prefetch buffer until it finished)
                     out.append(V("late", kind, f"peek/{case['hold']}/{case['back']}", f"{id_} delivered {got[id_] - max(tT, t_back):.3f}s after it was due and back"))
         listener.cancel()
         try:
@@ -390,6 +444,10 @@ def run_case(case):
         res = vl.run(lambda loop: multi(loop, case, out, stats, fps, samples), max_steps=3_000_000, seed=case["seed"])
         if res.exc is not None:
             out.append(V("harness_or_api_error", case["kind"], "multi", f"{type(res.exc).__name__}: {res.exc}"))
+    elif case["type"] == "crowd":
+        res = vl.run(lambda loop: crowd(loop, case, out, stats, fps), max_steps=6_000_000, seed=case["seed"])
+        if res.exc is not None:
+            out.append(V("harness_or_api_error", case["kind"], "crowd", f"{type(res.exc).__name__}: {res.exc}"))
     elif case["type"] == "peek":
         res = vl.run(lambda loop: peek(loop, case, out, stats, fps), max_steps=6_000_000, seed=case["seed"])
         if res.exc is not None:
